@@ -133,6 +133,13 @@ func c02Envs(thorough bool) []EnvCfg {
 			}
 		}
 	}
+	// sources that also expose Len() = bytes readable right now (connections, ring buffers): a reader that consults it
+	// must not mistake "nothing more right now" for "nothing more"
+	for _, ch := range []int{1, 100, 4097} {
+		for _, wl := range []bool{false, true} {
+			r = append(r, EnvCfg{Chunk: ch, ErrWithLast: wl, Len: true, AfterErr: ch % 2})
+		}
+	}
 	return r
 }
 
